@@ -183,12 +183,12 @@ def fp_literal(bits, kind):
 
 # libm functions: name -> (C name, arity, modelled by CBMC?)   [f32 and f64 forms]
 LIBM_CBMC = {'fabsf', 'fabs', 'floorf', 'floor', 'ceilf', 'ceil', 'truncf', 'trunc', 'roundf', 'round',
-             'sqrtf', 'sqrt', 'fmodf', 'fmod', 'copysignf', 'copysign', 'fminf', 'fmin', 'fmaxf', 'fmax',
+             'sqrtf', 'sqrt', 'copysignf', 'copysign', 'fminf', 'fmin', 'fmaxf', 'fmax',
              'nearbyintf', 'nearbyint', 'rintf', 'rint'}
 LIBM_UNINT = {'sinf', 'cosf', 'tanf', 'asinf', 'acosf', 'atanf', 'atan2f', 'sinhf', 'coshf', 'tanhf',
               'asinhf', 'acoshf', 'atanhf', 'expf', 'logf', 'exp2f', 'log2f', 'powf', 'log10f', 'cbrtf',
               'sin', 'cos', 'tan', 'asin', 'acos', 'atan', 'atan2', 'sinh', 'cosh', 'tanh', 'asinh',
-              'acosh', 'atanh', 'exp', 'log', 'exp2', 'log2', 'pow', 'log10', 'cbrt', 'fmaf', 'fma',
+              'acosh', 'atanh', 'exp', 'log', 'exp2', 'log2', 'pow', 'log10', 'cbrt', 'fmaf', 'fma', 'fmodf', 'fmod',
               'expm1f', 'expm1', 'log1pf', 'log1p', 'hypotf', 'hypot'}
 LIBM_MODEL = {'ldexpf', 'ldexp', 'frexpf', 'frexp', 'nextafterf', 'nextafter', 'modff', 'modf', 'scalbnf', 'scalbn'}
 
@@ -461,8 +461,8 @@ class FuncEmitter:
 
     def float_binop(self, op, a, b, kind):
         if op == 'frem':
-            self.ctx.trusted.add('cbmc-libm:fmod')
-            return '%s(%s, %s)' % ('fmodf' if kind == 'float' else 'fmod', a, b)
+            self.ctx.used_ext.add(('libm', 'fmodf' if kind == 'float' else 'fmod'))
+            return 'LL2C_LIBM_%s(%s, %s)' % ('fmodf' if kind == 'float' else 'fmod', a, b)
         if op in self.ctx.uf_float:
             sfx = 'f32' if kind == 'float' else 'f64'
             self.ctx.trusted.add('relational abstraction: %s as an uninterpreted function (sound for equalities between two runs)' % op)
